@@ -526,6 +526,12 @@ def run(ctx):
                 r7.undecidable("%s:ctrl" % short, "no back-space path can be taken with ctrl held")
     r1.floor(4, "3 fixed + 1 phonetic composition fields")
     r7.floor(4, "ctrl paths of both methods")
+
+    # ---------------- R8 every event of the context reaches the method object
+    r8 = chk.rule("C06.R8", "every context entry point (key, commit, finish, back-space, session query) delegates to the method object",
+                  "the session the properties speak of is the method object's: an entry point that skips it, rewrites an argument or answers from a copy shows a different session")
+    common.context_delegation(r8, prog, ["get_suggestion", "candidate_committed", "finish_input_session", "backspace_event", "ongoing_input_session"])
+    r8.floor(5, "five entry points")
     r5.floor(4, "key and back-space events of both methods")
     r6.floor(3, "non-terminating back-space exits (fixed ≥2, phonetic ≥1)")
     r2.floor(8, "terminating exits: fixed commit 1, finish 1, backspace ≥3; phonetic commit ≥1, finish 1, backspace ≥2")
